@@ -144,13 +144,6 @@ def r2q_rotations(rng):
     return [R]
 
 
-def r2q_safe(R):
-    """away from the ulp-neighbourhood of the degenerate threshold?"""
-    q = base.r2q(R)
-    # recompute |k| as the code does
-    return q
-
-
 # ---------------------------------------------------------------------------------------------- traces
 UQ = lambda q: UnitQuaternion(q[0], q[1:], norm=False, check=False)     # noqa: E731  (the only constructor path without unit())
 
@@ -254,6 +247,11 @@ def run(ctx):
                 "evaluations: Sym==Num / model==implementation cases + oracle evaluations on the implementation "
                 "(expression trees in every representation, conversions there and back, shared constructors x options); "
                 "a case is non-trivial/distinct by its (law, input) signature")
+    ctx.trusted_extra = [
+        "props/C04.py: np.linalg.det patched for 2x2/3x3 object arrays while tracing (isR inside the SO3/SE3 constructors); checked by Sym==Num",
+        "hand model Model/C04_R2q.v (base.r2q, UnitDualQuaternion(SE3)): tied by the extracted-model correspondence corr:m_r2q / corr:m_udq_of_T on a branch-directed sampler, not by a symbolic bridge",
+        "UnitQuaternion.RPY/Eul/OA and UnitQuaternion(SO3|matrix) = r2q o (matrix constructor): checked numerically (oracle struct:*), not traced",
+        "oracle reference: independent NumPy formulas in props/C04.py (rotx/roty/rotz, rpy orders, eul, Rodrigues, oa, q2r)"]
     with ctx.timed('regenerate'):
         g = build(ctx)
         p = ctx.write_gen(MOD + '.v', g.coq_text())
@@ -330,8 +328,9 @@ TOL = 1e-6
 # sub-check keys under which every kind of failure (exception of any type, NaN, wrong value) has ONE known root cause, the
 # matrix logarithm the twist classes are built on (base.trlog / trlog2, property C03): there the outcome is not part of the key
 LOG_HAZARD = ('conv:SE3->Twist3->SE3:near0', 'conv:SE3->Twist3->SE3:towardspi', 'conv:SE2->Twist2->SE2:near-half-turn',
-              'tree:Twist3:intermediate-near-identity', 'tree:Twist3:intermediate-near-half-turn',
-              'tree:Twist2:intermediate-near-half-turn')
+              'conv:SE2->Twist2->SE2:large-translation',
+              'tree:Twist3:log-near-identity', 'tree:Twist3:log-near-half-turn',
+              'tree:Twist2:log-near-half-turn', 'tree:Twist2:log-large-translation')
 
 
 class Oracle:
@@ -437,16 +436,35 @@ def rot_angle(T):
 
 
 def log_hazard(tree, Ts):
-    """where the matrix logarithm used by the twist classes is known to break (C03): an intermediate result whose
-    rotation angle is tiny but non-zero (3-D: NaN), or at / next to a half turn (2-D: complex logm; 3-D: loss of accuracy)"""
+    """where the matrix logarithm used by the twist classes is known to break (root causes in C03's functions):
+    3-D: an intermediate result within 1e-7 of the identity (NaN / exceptions), a leaf or intermediate within 1e-3 of a half
+    turn (loss of accuracy); 2-D (scipy logm returns a complex matrix): a leaf or intermediate with pi - |angle| < 0.15, or
+    with a translation above 3e4"""
     acc = []
     ref_nodes(tree, Ts, acc)
-    angs = [rot_angle(T) for T in acc]
-    if Ts[0].shape[0] == 4 and any(a < 1e-7 for a in angs):
-        return ':intermediate-near-identity'        # includes X * inv(X): the library's product is I only up to rounding
-    if any(math.pi - a < (1e-3 if Ts[0].shape[0] == 4 else 0.15) for a in angs):
-        return ':intermediate-near-half-turn'       # 2-D: scipy logm turns complex well before pi when the translation is large
+    used = [Ts[i] for i in sorted(tree_leaves(tree))]
+    inner = [rot_angle(T) for T in acc]
+    every = inner + [rot_angle(T) for T in used]
+    if Ts[0].shape[0] == 4:
+        if any(a < 1e-7 for a in inner):
+            return ':log-near-identity'        # includes X * inv(X): the library's product is I only up to rounding
+        if any(math.pi - a < 1e-3 for a in every):
+            return ':log-near-half-turn'
+        return ''
+    if any(math.pi - a < 0.15 for a in every):
+        return ':log-near-half-turn'
+    if any(float(np.max(np.abs(T[:2, 2]))) > 3e4 for T in acc + used):
+        return ':log-large-translation'
     return ''
+
+
+def tree_leaves(t):
+    if t[0] == 'leaf':
+        return {t[1]}
+    out = set()
+    for c in t[1:]:
+        out |= tree_leaves(c)
+    return out
 
 
 def tree_str(t):
@@ -466,6 +484,15 @@ def np_inv(T):
 def udq_inv(d):
     c = d.conj()         # returns a plain DualQuaternion (no .SE3()); rebuild the unit class from its parts
     return UnitDualQuaternion(c.real, c.dual)
+
+
+def trans_upto(rng, tmax, n=3):
+    """translation of magnitude up to tmax: zero, exactly tmax, or log-uniform below it"""
+    r = rng.random()
+    if r < 0.1:
+        return np.zeros(n)
+    m = tmax if r < 0.35 else log_uniform(rng, min(1e-6, tmax), tmax)
+    return rand_unit(rng, n) * m
 
 
 def rot_kind(rng):
@@ -501,7 +528,7 @@ def oracle_trees3(o, rng, ntrees, depth):
             R, kind, th = rot_kind(rng)
             Rs.append(R)
             kinds.append(kind)
-            ts.append(rand_trans(rng, min(1e-6, tmax), tmax))
+            ts.append(trans_upto(rng, tmax))
         tree = gen_tree(rng, int(rng.integers(1, depth + 1)), nleaf)
         inp = np.r_[np.array(Rs).flatten(), np.array(ts).flatten()]
         tag = {'tree': tree_str(tree), 'kinds': kinds}
@@ -571,7 +598,7 @@ def oracle_trees2(o, rng, ntrees, depth):
             ths.append(th)
             kinds.append(k)
             Rs.append(np.array([[math.cos(th), -math.sin(th)], [math.sin(th), math.cos(th)]]))
-            ts.append(rand_trans(rng, min(1e-6, tmax), tmax, 2))
+            ts.append(trans_upto(rng, tmax, 2))
         tree = gen_tree(rng, int(rng.integers(1, depth + 1)), nleaf)
         inp = np.r_[np.array(ths), np.array(ts).flatten()]
         Ts = [_T(R, t) for R, t in zip(Rs, ts)]
@@ -595,7 +622,8 @@ def oracle_trees2(o, rng, ntrees, depth):
                 if Y is not None:
                     o.cmp('tree:SE2.SE3', Y, ref3, inp, scale)
         tsc = lambda T: max(1.0, float(np.max(np.abs(T[:-1, -1]))))      # noqa: E731
-        L = o.leaves('conv:SE2->Twist2->SE2', Ts, kinds, lambda T: Twist2(SE2(T, check=False)), lambda tw: tw.SE2().A, tsc)
+        k2 = [k if (k == 'near-half-turn' or float(np.max(np.abs(T[:2, 2]))) <= 3e4) else 'large-translation' for k, T in zip(kinds, Ts)]
+        L = o.leaves('conv:SE2->Twist2->SE2', Ts, k2, lambda T: Twist2(SE2(T, check=False)), lambda tw: tw.SE2().A, tsc)
         if L is not None:
             hz = log_hazard(tree, Ts)
             X = o.guard('tree:Twist2' + hz, lambda: eval_tree(tree, L, lambda a, b: a * b, lambda a: a.inv()), inp, aux={'tree': tree_str(tree)})
